@@ -10,6 +10,7 @@ import (
 	"reflect"
 	"sort"
 	"strings"
+	"sync"
 	"time"
 
 	"github.com/brutella/hc/accessory"
@@ -29,18 +30,94 @@ type c11Subject struct {
 	Build func() *characteristic.Characteristic
 }
 
+// The permissions a subject is DECLARED to have do not come from the object under test: for the library's
+// constructors they are those of the bundled HomeKit metadata (by type id; constructors the metadata does not
+// know: what the constructor returned before any other code ran), for the generic subjects the literal set.
+var (
+	c11Truth   = map[*characteristic.Characteristic][]string{}
+	c11TruthMu sync.Mutex
+)
+
+func c11Has(ch *characteristic.Characteristic, p string) bool {
+	c11TruthMu.Lock()
+	t, ok := c11Truth[ch]
+	c11TruthMu.Unlock()
+	if !ok {
+		t = ch.Perms
+	}
+	for _, x := range t {
+		if x == p {
+			return true
+		}
+	}
+	return false
+}
+func canW(ch *characteristic.Characteristic) bool { return c11Has(ch, characteristic.PermWrite) }
+func canR(ch *characteristic.Characteristic) bool { return c11Has(ch, characteristic.PermRead) }
+func canE(ch *characteristic.Characteristic) bool { return c11Has(ch, characteristic.PermEvents) }
+
+func c11Declare(ch *characteristic.Characteristic, perms []string) *characteristic.Characteristic {
+	c11TruthMu.Lock()
+	if len(c11Truth) > 200000 {
+		c11Truth = map[*characteristic.Characteristic][]string{}
+	}
+	c11Truth[ch] = perms
+	c11TruthMu.Unlock()
+	return ch
+}
+
+// c11UseHelpers does what application code does with the exported permission helpers: it extends the returned
+// slice and edits it in place. The slices belong to the caller; no characteristic built before or after may notice.
+func c11UseHelpers() {
+	for _, h := range []func() []string{characteristic.PermsAll, characteristic.PermsRead, characteristic.PermsReadOnly, characteristic.PermsWriteOnly} {
+		for _, extra := range []string{characteristic.PermWrite, characteristic.PermRead, characteristic.PermEvents, "hd"} {
+			custom := append(h(), extra)
+			_ = custom
+		}
+		p := h()
+		for i := range p {
+			p[i] = characteristic.PermWrite
+		}
+	}
+}
+
 func c11Subjects() []c11Subject {
 	var out []c11Subject
+	md, _ := loadMetadata()
+	declared := map[string][]string{}
+	if md != nil {
+		for _, m := range md.Characteristics {
+			ps := []string{}
+			for _, p := range m.Properties {
+				switch p {
+				case "read":
+					ps = append(ps, characteristic.PermRead)
+				case "write":
+					ps = append(ps, characteristic.PermWrite)
+				case "cnotify":
+					ps = append(ps, characteristic.PermEvents)
+				}
+			}
+			declared[minify(m.UUID)] = ps
+		}
+	}
 	for _, ct := range catalog.CharacteristicCtors {
 		ct := ct
-		if v, err := ct.Build(); err != nil || catalog.Char(v) == nil {
+		v, err := ct.Build()
+		if err != nil || catalog.Char(v) == nil {
 			continue
+		}
+		first := catalog.Char(v)
+		truth, ok := declared[minify(first.Type)]
+		if !ok {
+			truth = append([]string{}, first.Perms...)
 		}
 		out = append(out, c11Subject{"characteristic." + ct.Name, func() *characteristic.Characteristic {
 			v, _ := ct.Build()
-			return catalog.Char(v)
+			return c11Declare(catalog.Char(v), truth)
 		}})
 	}
+	c11UseHelpers()
 	permSets := [][]string{{}, {"pr"}, {"pw"}, {"ev"}, {"pr", "pw"}, {"pr", "ev"}, {"pw", "ev"}, {"pr", "pw", "ev"}}
 	for _, ps := range permSets {
 		ps := ps
@@ -81,11 +158,55 @@ func c11Subjects() []c11Subject {
 				return c.Characteristic
 			}})
 	}
+	// subjects whose permissions come from the exported helpers, as application code builds custom characteristics;
+	// the helpers were used (extended, edited) by other code before, and are again between any two builds
+	helpers := []struct {
+		name  string
+		f     func() []string
+		truth []string
+	}{
+		{"PermsAll", characteristic.PermsAll, []string{"pr", "pw", "ev"}},
+		{"PermsRead", characteristic.PermsRead, []string{"pr", "ev"}},
+		{"PermsReadOnly", characteristic.PermsReadOnly, []string{"pr"}},
+		{"PermsWriteOnly", characteristic.PermsWriteOnly, []string{"pw"}},
+	}
+	for _, h := range helpers {
+		h := h
+		out = append(out,
+			c11Subject{"generic.Bool[" + h.name + "()]", func() *characteristic.Characteristic {
+				c := characteristic.NewBool("E011")
+				c.Perms = h.f()
+				c11UseHelpers()
+				c.SetValue(true)
+				return c11Declare(c.Characteristic, h.truth)
+			}},
+			c11Subject{"generic.Int[" + h.name + "()]", func() *characteristic.Characteristic {
+				c := characteristic.NewInt("E012")
+				c.Format = characteristic.FormatUInt8
+				c.Perms = h.f()
+				c11UseHelpers()
+				c.SetValue(10)
+				return c11Declare(c.Characteristic, h.truth)
+			}},
+			c11Subject{"generic.String[" + h.name + "()]", func() *characteristic.Characteristic {
+				c := characteristic.NewString("E014")
+				c.Perms = h.f()
+				c11UseHelpers()
+				c.SetValue("init")
+				return c11Declare(c.Characteristic, h.truth)
+			}})
+	}
 	return out
 }
 
 func permKey(ch *characteristic.Characteristic) string {
-	p := append([]string{}, ch.Perms...)
+	c11TruthMu.Lock()
+	t, ok := c11Truth[ch]
+	c11TruthMu.Unlock()
+	if !ok {
+		t = ch.Perms
+	}
+	p := append([]string{}, t...)
 	sort.Strings(p)
 	return "[" + strings.Join(p, ",") + "]"
 }
@@ -140,7 +261,7 @@ func c11InProcess(c *fw.Ctx) {
 					continue // a panic is C12's business
 				}
 				pk := permKey(ch)
-				if !ch.IsWritable() {
+				if !canW(ch) {
 					if !reflect.DeepEqual(ch.Value, before) {
 						c.Report("write-without-pw-changed-value/"+ch.Format, fmt.Sprintf("%s %s: a remote write of %s changed the value from %v to %v", sub.Name, pk, v.Label, before, ch.Value), cas)
 					}
@@ -148,7 +269,7 @@ func c11InProcess(c *fw.Ctx) {
 						c.Report("write-without-pw-invoked-callback/"+ch.Format, fmt.Sprintf("%s %s: a remote write of %s invoked %d application callbacks", sub.Name, pk, v.Label, remote+local), cas)
 					}
 				}
-				if !ch.IsReadable() {
+				if !canR(ch) {
 					// local updates too must not store a value
 					guard(func() { ch.UpdateValue(v.V) })
 					if ch.Value != nil {
@@ -261,6 +382,14 @@ func c11HTTP(c *fw.Ctx) {
 			return v, fmt.Sprint(v)
 		}
 	}
+	// a companion characteristic that accepts writes and subscriptions, for requests with several entries
+	var comp *ent
+	for _, e := range ents {
+		if canW(e.ch) && canE(e.ch) && canR(e.ch) && e.ch.Format == characteristic.FormatBool {
+			comp = e
+			break
+		}
+	}
 	for i, e := range ents {
 		ch := e.ch
 		pk := permKey(ch)
@@ -276,14 +405,14 @@ func c11HTTP(c *fw.Ctx) {
 			return
 		}
 		switch {
-		case !ch.IsWritable():
+		case !canW(ch):
 			if !reflect.DeepEqual(ch.Value, before) {
 				c.Report("http-write-without-pw-changed-value/"+ch.Format, fmt.Sprintf("%s %s: PUT changed the value", e.name, pk), cas)
 			}
 			if remote[ch] != r0 || local[ch] != l0 {
 				c.Report("http-write-without-pw-invoked-callback/"+ch.Format, fmt.Sprintf("%s %s: PUT invoked application callbacks", e.name, pk), cas)
 			}
-		case ch.IsReadable():
+		case canR(ch):
 			if !reflect.DeepEqual(ch.Value, nv) {
 				c.Report("http-write-not-applied/"+ch.Format, fmt.Sprintf("%s %s: PUT of %s (status %d) left the value at %v", e.name, pk, js, m.Status, ch.Value), cas)
 			}
@@ -296,7 +425,7 @@ func c11HTTP(c *fw.Ctx) {
 			return
 		}
 		es, perr := c09ParseEntries(m.Body)
-		if !ch.IsReadable() {
+		if !canR(ch) {
 			if ch.Value != nil {
 				c.Report("http-value-stored-without-pr/"+ch.Format, fmt.Sprintf("%s %s: a value is stored", e.name, pk), cas)
 			}
@@ -311,7 +440,7 @@ func c11HTTP(c *fw.Ctx) {
 			c.Infra("PUT ev failed: " + err.Error())
 			return
 		}
-		if !ch.IsObservable() {
+		if !canE(ch) {
 			es, perr := c09ParseEntries(m.Body)
 			ok := perr == nil && len(es) == 1 && es[0].Status != nil && *es[0].Status != 0
 			if !ok {
@@ -331,6 +460,35 @@ func c11HTTP(c *fw.Ctx) {
 					break
 				}
 			}
+			// the rejected subscription in one request with entries that succeed, before and after it: its own entry
+			// still carries the rejection status
+			if comp != nil && comp.ch != ch {
+				cid := fmt.Sprintf(`"aid":%d,"iid":%d`, comp.acc.ID, comp.ch.ID)
+				_, cjs := change(comp.ch, i+3)
+				for _, body := range []string{
+					fmt.Sprintf(`{"characteristics":[{%s,"ev":true},{%s,"value":%s}]}`, id, cid, cjs),
+					fmt.Sprintf(`{"characteristics":[{%s,"ev":true},{%s,"ev":true}]}`, cid, id),
+					fmt.Sprintf(`{"characteristics":[{%s,"ev":true},{%s,"ev":true},{%s,"ev":false}]}`, cid, id, cid),
+				} {
+					c.Eval(1)
+					m3, _, err := put(body)
+					if err != nil {
+						c.Infra("PUT batch failed: " + err.Error())
+						return
+					}
+					es, perr := c09ParseEntries(m3.Body)
+					rejected := false
+					for _, x := range es {
+						if x.Aid == e.acc.ID && x.Iid == ch.ID && x.Status != nil && *x.Status != 0 {
+							rejected = true
+						}
+					}
+					if perr != nil || !rejected {
+						c.Report("subscription-without-ev-not-rejected/batch/"+ch.Format, fmt.Sprintf("%s %s: in a request with other entries that succeed, the ev=true entry is not answered with a non-zero status (status %d, body %q)", e.name, pk, m3.Status, trunc(m3.Body, 120)), cas)
+						break
+					}
+				}
+			}
 			// value + ev in one entry: the value part follows the write permission, the ev part is rejected
 			nv2, js2 := change(ch, i+1)
 			before = ch.Value
@@ -340,7 +498,7 @@ func c11HTTP(c *fw.Ctx) {
 				if !(perr == nil && len(es) == 1 && es[0].Status != nil && *es[0].Status != 0) {
 					c.Report("subscription-without-ev-not-rejected-combined/"+ch.Format, fmt.Sprintf("%s %s: value+ev entry not answered with a status", e.name, pk), cas)
 				}
-				if !ch.IsWritable() && !reflect.DeepEqual(ch.Value, before) {
+				if !canW(ch) && !reflect.DeepEqual(ch.Value, before) {
 					c.Report("http-write-without-pw-changed-value-combined/"+ch.Format, fmt.Sprintf("%s %s: value+ev entry changed the value", e.name, pk), cas)
 				}
 				_ = nv2
@@ -356,13 +514,13 @@ func c11HTTP(c *fw.Ctx) {
 	defer k2.Close()
 	for i, e := range ents {
 		ch := e.ch
-		if ch.IsObservable() {
+		if canE(ch) {
 			continue
 		}
 		c.Eval(1)
 		nv, js := change(ch, i+7)
 		ch.UpdateValue(nv)
-		if ch.IsWritable() {
+		if canW(ch) {
 			nv2, js2 := change(ch, i+8)
 			_ = nv2
 			k2.Do("PUT", "/characteristics", refctl.CTJSON, []byte(fmt.Sprintf(`{"characteristics":[{"aid":%d,"iid":%d,"value":%s}]}`, e.acc.ID, ch.ID, js2)))
@@ -380,7 +538,7 @@ func c11HTTP(c *fw.Ctx) {
 	// 5. observable but not readable: a subscriber's EVENT after somebody else's write must not carry the value
 	for i, e := range ents {
 		ch := e.ch
-		if !ch.IsObservable() || ch.IsReadable() {
+		if !canE(ch) || canR(ch) {
 			continue
 		}
 		c.Eval(1)
@@ -390,7 +548,7 @@ func c11HTTP(c *fw.Ctx) {
 		}
 		_, js := change(ch, i+21)
 		secret := strings.Trim(js, `"`)
-		if ch.IsWritable() {
+		if canW(ch) {
 			k2.Do("PUT", "/characteristics", refctl.CTJSON, []byte(fmt.Sprintf(`{"characteristics":[{"aid":%d,"iid":%d,"value":%s}]}`, e.acc.ID, ch.ID, js)))
 		}
 		nv, _ := change(ch, i+22)
